@@ -73,6 +73,13 @@ type Config struct {
 	// every operation that would create a NEW directory entry fails with
 	// EACCES; existing files can still be opened, written and truncated.
 	DenyCreate bool `json:"deny_create,omitempty"`
+	// Stall (bubble worlds): the machine stalls for StallSec simulated seconds
+	// just before the StallOp-th file operation of the run (1-based, reads
+	// included): the goroutine sleeps on the bubble's clock, so every timer,
+	// deadline and context of the process sees the time pass (at no real
+	// cost), and the seamed wall clock moves with it.
+	StallOp  int `json:"stall_op,omitempty"`
+	StallSec int `json:"stall_sec,omitempty"`
 	// Out is where Exit/Flush writes the world record (process worlds).
 	Out string `json:"out,omitempty"`
 }
@@ -120,6 +127,7 @@ type sched struct {
 	rpos   int
 	now    int64
 	writes int
+	allOps int
 	active bool
 }
 
@@ -170,6 +178,7 @@ func Begin(c Config) {
 	s.rec.ClockMin = c.ClockBase
 	s.rec.ClockMax = c.ClockBase
 	s.writes = 0
+	s.allOps = 0
 	s.active = true
 }
 
